@@ -266,6 +266,15 @@ class PrefVec(object):
         return self.base(k - self.offset)
 
 
+def _cmp(got, want):
+    """got == want for scalars; anything that is not a scalar expression is a difference (not a crash)"""
+    try:
+        g = got if isinstance(got, P) else P.const(got)
+    except TypeError:
+        return False
+    return K.compare(g, want)[0]
+
+
 def check_full_c_any_length(led):
     """calc_full_c for EVERY series order: the reduced (or full) vector has symbolic length; its first three entries are explicit,
     the others are seen through the generic position k"""
@@ -318,7 +327,7 @@ def check_full_c_any_length(led):
                             want = cu_elem(P.const(k if full else red))
                         if k not in excl:
                             red += 1
-                        if not K.compare(got if isinstance(got, P) else P.const(got), want)[0]:
+                        if not _cmp(got, want):
                             probs.append('entry %d: %s instead of %s' % (k, got, want))
                     # explicit entries beyond the third and the generic tail position
                     kk = integer('k_pos')
@@ -326,7 +335,7 @@ def check_full_c_any_length(led):
                         posP = pos if isinstance(pos, P) else P.const(pos)
                         got = c.prefix[pos] if not isinstance(pos, P) else c.at(posP)
                         want = cu_elem(posP if full else posP - len(excl))
-                        if not K.compare(got if isinstance(got, P) else P.const(got), want)[0]:
+                        if not _cmp(got, want):
                             probs.append('entry %s: %s instead of %s' % (posP, got, want))
                 nm = name + '/free entries kept, prescribed entries inc*ck'
                 if probs:
